@@ -6,14 +6,14 @@ func init() {
 	reg(&propDef{
 		ID: "C14",
 		Runs: []hrun{
-			{Pkg: wtxmgrPkg, Fn: "ZzC14Sort2", Tiers: "qt", Reach: []string{"c14-end", "c14-has-edge", "c14-multi-edge"}, Bound: "all spend DAGs on 2 transactions with <=2 inputs each x every order of both map ranges"},
-			{Pkg: wtxmgrPkg, Fn: "ZzC14Sort3", Tiers: "qt", Reach: []string{"c14-end", "c14-has-edge", "c14-multi-edge"}, Bound: "all spend DAGs on 3 transactions (<=2 inputs each: external, any earlier tx, second edge to the same parent) x every order of both map ranges"},
-			{Pkg: wtxmgrPkg, Fn: "ZzC14Store2", Tiers: "qt", Reach: []string{"c14-end", "c14-has-edge", "c14-multi-edge", "c14-parent-without-credit"}, Bound: "the same DAGs on 2 transactions recorded as unconfirmed transactions of a real Store over memdb, each with none / the first / both outputs credited to the wallet, then Store.UnminedTxs under every order of every map range"},
-			{Pkg: wtxmgrPkg, Fn: "ZzC14Shapes", Tiers: "qt", Reach: []string{"c14-end", "c14-has-edge"}, Bound: "six fixed graphs on 4 and 5 transactions with several transactions ready at once and parents releasing up to three children (two roots with children on one of them, a star, a double diamond, a two-level tree) x every order of both map ranges"},
+			{Pkg: wtxmgrPkg, Fn: "ZzC14Sort2", MapOrder: true, Tiers: "qt", Reach: []string{"c14-end", "c14-has-edge", "c14-multi-edge"}, Bound: "all spend DAGs on 2 transactions with <=2 inputs each x every order of both map ranges"},
+			{Pkg: wtxmgrPkg, Fn: "ZzC14Sort3", MapOrder: true, Tiers: "qt", Reach: []string{"c14-end", "c14-has-edge", "c14-multi-edge"}, Bound: "all spend DAGs on 3 transactions (<=2 inputs each: external, any earlier tx, second edge to the same parent) x every order of both map ranges"},
+			{Pkg: wtxmgrPkg, Fn: "ZzC14Store2", MapOrder: true, Tiers: "qt", Reach: []string{"c14-end", "c14-has-edge", "c14-multi-edge", "c14-parent-without-credit"}, Bound: "the same DAGs on 2 transactions recorded as unconfirmed transactions of a real Store over memdb, each with none / the first / both outputs credited to the wallet, then Store.UnminedTxs under every order of every map range"},
+			{Pkg: wtxmgrPkg, Fn: "ZzC14Shapes", MapOrder: true, Tiers: "qt", Reach: []string{"c14-end", "c14-has-edge"}, Bound: "six fixed graphs on 4 and 5 transactions with several transactions ready at once and parents releasing up to three children (two roots with children on one of them, a star, a double diamond, a two-level tree) x every order of both map ranges"},
 			{Pkg: wtxmgrPkg, Fn: "ZzC14StoreConcurrent", Tiers: "qt", Sched: true, Reach: []string{"c14-end"}, Bound: "Store.UnminedTxs read in its own transaction while a writer is between recording a child transaction and committing (every interleaving with at most 2 preemptions); afterwards the list is complete and ordered"},
-			{Pkg: wtxmgrPkg, Fn: "ZzC14ShapesAll", Tiers: "t", Reach: []string{"c14-end"}, Bound: "the same plus two roots with two children each (6 transactions, 518400 orders)"},
-			{Pkg: wtxmgrPkg, Fn: "ZzC14Store3", Tiers: "t", Reach: []string{"c14-end", "c14-multi-edge", "c14-parent-without-credit"}, Bound: "Store.UnminedTxs, DAGs on 3 transactions x credited-output choices x map orders (209952 paths)"},
-			{Pkg: wtxmgrPkg, Fn: "ZzC14Sort4", Tiers: "t", Reach: []string{"c14-end", "c14-multi-edge"}, Bound: "all spend DAGs on 4 transactions x every order of both map ranges (331776 paths)"},
+			{Pkg: wtxmgrPkg, Fn: "ZzC14ShapesAll", MapOrder: true, Tiers: "t", Reach: []string{"c14-end"}, Bound: "the same plus two roots with two children each (6 transactions, 518400 orders)"},
+			{Pkg: wtxmgrPkg, Fn: "ZzC14Store3", MapOrder: true, Tiers: "t", Reach: []string{"c14-end", "c14-multi-edge", "c14-parent-without-credit"}, Bound: "Store.UnminedTxs, DAGs on 3 transactions x credited-output choices x map orders (209952 paths)"},
+			{Pkg: wtxmgrPkg, Fn: "ZzC14Sort4", MapOrder: true, Tiers: "t", Reach: []string{"c14-end", "c14-multi-edge"}, Bound: "all spend DAGs on 4 transactions x every order of both map ranges (331776 paths)"},
 		},
 		Outside: "all graphs on more than 4 transactions (beyond the listed fixed shapes), more than 2 inputs per transaction; here graph shapes and map orders are enumerated exhaustively (structural forks), no data is symbolic",
 	})
@@ -298,6 +298,8 @@ func init() {
 			{Pkg: walletPkg, Fn: "ZzC15L2", Tiers: "qt", Sched: true, Reach: []string{"c15-end", "reorg-1", "reorg-2", "duplicate-disconnect", "stale-disconnect", "wallet-tx-confirmed", "wallet-tx-unconfirmed-by-reorg", "reorg-started-during-rescan", "out-of-order-connect", "reorg-entirely-during-rescan"}, Bound: "real handleChainNotifications goroutine; base height 10001; 2 evolutions from {out-of-order connect of two new blocks (second first: refused, then both in order), reorg of depth 1 entirely during a rescan (followed through the connect at the tip height), extend, extend with wallet tx, reorg depth 1, reorg depth 2, duplicate disconnect, stale disconnect, reorg depth 2 whose first disconnect arrives while a rescan is running (missed by the wallet) and whose second one is for a block below the wallet's tip}"},
 			{Pkg: walletPkg, Fn: "ZzC15Startup1", Tiers: "qt", Reach: []string{"c15-end", "wallet-tx-orphaned", "birthday-block-orphaned"}, Bound: "reorg of depth 1 while stopped (new branch same length or longer), wallet tx in any of 4 blocks, birthday block any of the 6 blocks the wallet knew (possibly orphaned itself), then syncWithChain"},
 			{Pkg: walletPkg, Fn: "ZzC15Startup2", Tiers: "qt", Reach: []string{"c15-end", "wallet-tx-orphaned", "birthday-block-orphaned"}, Bound: "depth 2 while stopped"},
+			{Pkg: walletPkg, Fn: "ZzC15StartupRecovery1", Tiers: "qt", Reach: []string{"c15-end", "wallet-tx-orphaned", "new-branch-longer"}, Bound: "wallet started in recovery mode (window 1) after a reorg of depth 1 while stopped, new branch 0..2 blocks longer than the old one, wallet tx in any of 3 blocks"},
+			{Pkg: walletPkg, Fn: "ZzC15StartupRecovery2", Tiers: "t", Reach: []string{"c15-end", "wallet-tx-orphaned", "new-branch-longer"}, Bound: "the same at depth 2"},
 			{Pkg: walletPkg, Fn: "ZzC15Startup3", Tiers: "qt", Reach: []string{"c15-end", "wallet-tx-orphaned", "birthday-block-orphaned"}, Bound: "depth 3 while stopped"},
 			{Pkg: walletPkg, Fn: "ZzC15L3", Tiers: "t", Sched: true, Reach: []string{"c15-end"}, Bound: "3 evolutions, base 10001"},
 			{Pkg: walletPkg, Fn: "ZzC15L3Low", Tiers: "t", Sched: true, Reach: []string{"c15-end"}, Bound: "3 evolutions, base height 1"},
